@@ -384,7 +384,9 @@ pub fn c08range() -> bool {
         for (i, k) in keys.iter().enumerate() {
             for au in [&a1, &a2] {
                 if i % 2 == 0 || au.id() == a1.id() {
-                    let e = SignedEntry::from_entry(Entry::new(RecordIdentifier::new(d.id(), au.id(), k), Record::new(Hash::new([b"v".as_slice(), k].concat()), 1 + k.len() as u64, now + i as u64)), d, au);
+                    // the last key of the first author is a deletion marker (an entry like any other for ranges and fingerprints)
+                    let rec = if i == 4 && au.id() == a1.id() { Record::empty(now + i as u64) } else { Record::new(Hash::new([b"v".as_slice(), k].concat()), 1 + k.len() as u64, now + i as u64) };
+                    let e = SignedEntry::from_entry(Entry::new(RecordIdentifier::new(d.id(), au.id(), k), rec), d, au);
                     block_on(r.insert_remote_entry(e, [1u8; 32], ContentStatus::Complete)).unwrap();
                 }
             }
@@ -491,6 +493,8 @@ pub fn run(id: &str) -> Option<bool> {
         "c08range" => c08range(),
         "c09recid" => c09recid(),
         "c01silence" => c01silence(),
+        "c01reply" => super::witness_pm::c01reply(),
+        "c01session" => super::witness_pm::c01session(),
         "fp" => fp(),
         "c14" => crate::actor::verif_incrate::witness_c14(),
         "c11live" => crate::engine::verif_live::witness_c11live(),
